@@ -1,16 +1,14 @@
 (** C11: the reference trimming, the partial theorem in the property's words, and the
     concrete witnesses against the full statement. *)
 From Coq Require Import List NArith ZArith Bool Lia.
-From Cicada Require Import Base.Chars Base.Tag Base.Regex Gen.ShellRegexes Model.Expand Model.ExpandRef
+From Cicada Require Import Base.Chars Base.Tag Base.Regex Gen.ShellRegexes Model.Expand Model.ExpandRef Model.SubstVariant
   Proofs.ExpandBasics Proofs.SubstProofs.
 Import ListNotations.
 From Coq Require String.
 Import String.StringSyntax.
 Local Open Scope N_scope.
 
-(** what the property asks for: trailing newlines removed, nothing else *)
-Fixpoint drop_nl (s : str) : str := match s with 10 :: r => drop_nl r | _ => s end.
-Definition strip_nl (s : str) : str := rev (drop_nl (rev s)).
+(** what the property asks for -- trailing newlines removed, nothing else -- is [strip_nl] of Model/SubstVariant.v *)
 
 (** the words the statements speak about: head $( cmd ) tail with unambiguous boundaries *)
 Definition word_ok (head cmd tail : str) : Prop :=
@@ -27,18 +25,21 @@ Definition C11_full : Prop :=
 
 Lemma splice_partial W head cmd tail out f :
   word_ok head cmd tail -> run_capture W cmd = Some out ->
-  ~ In 36 (trim out) -> trim out = strip_nl out ->
+  has_dollar_paren (head ++ trim out ++ tail) = false -> trim out = strip_nl out ->
   dollar_loop (S (S f)) W (head ++ [36; 40] ++ cmd ++ [41] ++ tail) [] = Ok (Some (head ++ strip_nl out ++ tail), [cmd]).
 Proof.
   intros (H1 & H2 & H3 & H4 & H5 & H6 & H7 & H8) Hr Hd Ht. rewrite <- Ht.
+  assert (E : oracle_out W cmd = out) by (unfold oracle_out; rewrite Hr; reflexivity).
+  rewrite <- E in *.
   apply dollar_loop_splices; assumption.
 Qed.
 
-Lemma hang_general W head cmd tail :
+(** since 85ca576: an inner line that does not plan gives the empty replacement, after one call *)
+Lemma unplannable_empty W head cmd tail f :
   word_ok head cmd tail -> run_capture W cmd = None ->
-  forall f log, dollar_loop f W (head ++ [36; 40] ++ cmd ++ [41] ++ tail) log = OutOfFuel.
+  dollar_loop (S (S f)) W (head ++ [36; 40] ++ cmd ++ [41] ++ tail) [] = Ok (Some (head ++ tail), [cmd]).
 Proof.
-  intros (H1 & H2 & H3 & H4 & H5 & H6 & H7 & H8) Hr. apply dollar_loop_hangs; assumption.
+  intros (H1 & H2 & H3 & H4 & H5 & H6 & H7 & H8) Hr. apply dollar_loop_unplannable; assumption.
 Qed.
 
 Lemma word_ok_x : word_ok [] [120] [].
@@ -49,19 +50,11 @@ Proof.
   - left. intros H. repeat (destruct H as [H|H]; [discriminate|]). exact H.
 Qed.
 
-(** echo $(ls >) : the inner line does not plan -- the loop never ends *)
-Definition W_noplan := world_of [] [([120], None)].
-Theorem full_refuted : ~ C11_full.
-Proof.
-  intros H. destruct (H W_noplan [] [120] [] word_ok_x) as [_ H2].
-  destruct (H2 eq_refl) as [f Hf].
-  rewrite (hang_general W_noplan [] [120] [] word_ok_x eq_refl f []) in Hf. discriminate.
-Qed.
-
-(** $(x) where x prints a$1b : the output is used as a replacement template, $1b is read as a reference to a group that does not exist *)
+(** regression (since 5e2d7b7): $(x) where x prints a$1b : the output is text, $1b stays (it used to be
+    read as a reference to a group that does not exist) *)
 Definition W_tpl := world_of [] [([120], Some (s2l "a$1b"))].
-Lemma template_witness : forall f, (2 <= f)%nat ->
-  dollar_loop f W_tpl (s2l "$(x)") [] = Ok (Some (s2l "a"), [[120]]).
+Lemma template_kept : forall f, (2 <= f)%nat ->
+  dollar_loop f W_tpl (s2l "$(x)") [] = Ok (Some (s2l "a$1b"), [[120]]).
 Proof.
   intros f Hf. destruct f as [|[|f]]; try lia.
   rewrite !dollar_loop_S. vm_compute. reflexivity.
@@ -76,7 +69,33 @@ Proof.
   rewrite !dollar_loop_S. vm_compute. split; reflexivity.
 Qed.
 
+Lemma word_ok_pxq : word_ok [112] [120] [113].
+Proof.
+  unfold word_ok. cbn. repeat split; try discriminate;
+    try (intros H; repeat (destruct H as [H|H]; [discriminate|]); exact H).
+  left. intros H. repeat (destruct H as [H|H]; [discriminate|]). exact H.
+Qed.
+
+(** the full statement asks for p<blank>v<blank>q; the loop gives pvq *)
+Theorem full_refuted : ~ C11_full.
+Proof.
+  intros H. destruct (H W_ws [112] [120] [113] word_ok_pxq) as [H1 _].
+  destruct (H1 [32; 118; 32; 10] eq_refl) as [f Hf].
+  change ([112] ++ [36; 40] ++ [120] ++ [41] ++ [113]) with (s2l "p$(x)q") in Hf.
+  destruct f as [|[|f]].
+  - discriminate.
+  - vm_compute in Hf. discriminate.
+  - rewrite (proj1 (whitespace_witness (S (S f)) ltac:(lia))) in Hf. vm_compute in Hf. discriminate.
+Qed.
+
 (** $(x)$(y) : the greedy group takes everything up to the LAST closing paren as one command *)
 Lemma greedy_merge_witness :
   find_dollar (s2l "$(x)$(y)") = Some ([], s2l "x)$(y", [], []).
 Proof. vm_compute. reflexivity. Qed.
+
+Print Assumptions splice_partial.
+Print Assumptions unplannable_empty.
+Print Assumptions template_kept.
+Print Assumptions whitespace_witness.
+Print Assumptions full_refuted.
+Print Assumptions greedy_merge_witness.
